@@ -177,13 +177,18 @@ def malformed_inputs(rng):
             avps += [N.avp(283, L[1].encode())] + ([N.avp(293, L[0].encode())] if rng.random() < 0.5 else [])
         else:
             avps.insert(1, N.avp(268, N.u32(rng.choice([2001, 3002, 5012, 0, 0xffffffff]))))
-        picks = fixed or [(rng.choice(text_avps), rng.choice(hostile)) for _ in range(rng.randrange(1, 4))]
-        for code, val in picks:
+        picks = fixed or [(rng.choice(text_avps), rng.choice(hostile)) + ((rng.choice([10415, 0, 9]),) if rng.random() < 0.25 else ())
+                          for _ in range(rng.randrange(1, 4))]
+        for pick in picks:
+            code, val = pick[:2]
+            # a third element: the AVP carries the V flag and that Vendor-ID, so the node sees a base code it knows on an AVP
+            # that is not the base AVP (it decodes as a generic AVP and the named attribute is absent)
+            new = N.avp(code, val, flags=0xc0, vendor=pick[2]) if len(pick) > 2 else N.avp(code, val)
             repl = [i for i, x in enumerate(avps) if x.code == code]
-            if repl and rng.random() < 0.7:
-                avps[repl[0]] = N.avp(code, val)
+            if repl and (fixed or rng.random() < 0.7):       # a named class always replaces the regular AVP of that code
+                avps[repl[0]] = new
             else:
-                avps.insert(rng.randrange(len(avps) + 1), N.avp(code, val))
+                avps.insert(rng.randrange(len(avps) + 1), new)
         if not fixed and rng.random() < 0.3:
             avps.append(N.avp(rng.choice([258, 278, 268, 273]), rng.choice([b"", b"\x01", N.u32(7) + b"\x00", N.u32(0xffffffff)])))
         app, code = rng.choice([(16777251, 316), (16777251, 318), (4, 272), (0, 274), (16777251, 8388620)])
@@ -194,6 +199,10 @@ def malformed_inputs(rng):
         ("hostile-content-burst", b"".join(hostile_message(rng.random() < 0.6) for _ in range(rng.randrange(2, 6)))),
         ("empty-origin-host-request", hostile_message(True, [(264, b"")])),
     ]
+    for code in (263, 264, 296, 293, 283, 268, 258):      # identity / addressing / result AVPs, vendor-flagged: present by code, absent by name
+        val = {268: N.u32(2001), 258: N.u32(16777251)}.get(code, b"someone.else" if code in (293, 283) else L[0].encode())
+        out.append(("vendor-flagged-avp-%d-request" % code, hostile_message(True, [(code, val, rng.choice([10415, 9]))])))
+        out.append(("vendor-flagged-avp-%d-answer" % code, hostile_message(False, [(code, val, rng.choice([10415, 9]))])))
     for code in text_avps:      # every text AVP the node may look into, once undecodable in a request and once in an answer
         out.append(("invalid-utf8-avp-%d-request" % code, hostile_message(True, [(code, rng.choice([b"\xffalice\xfe", b"\xc3\x28;1;2", b"\x80"]))])))
         out.append(("invalid-utf8-avp-%d-answer" % code, hostile_message(False, [(code, rng.choice([b"\xff\xfe", b"\x80abc"]))])))
